@@ -25,6 +25,19 @@ int bs_exc;
 #define BS_TLIT(k) (k)
 #define BS_TLIT_NEG(k) (-(k))
 
+/* scalar multiplication and division as the extracted code performs them.  Under BS_OPAQUE_MUL they are
+ * uninterpreted functions: a proof that goes through for arbitrary binary functions holds for * and / in
+ * particular (used for the structural proofs, which need congruence only, not arithmetic). */
+#ifdef BS_OPAQUE_MUL
+T __CPROVER_uninterpreted_mul(T, T);
+T __CPROVER_uninterpreted_div(T, T);
+#define BS_MUL(a, b) __CPROVER_uninterpreted_mul(a, b)
+#define BS_DIV(a, b) __CPROVER_uninterpreted_div(a, b)
+#else
+#define BS_MUL(a, b) ((a) * (b))
+#define BS_DIV(a, b) ((a) / (b))
+#endif
+
 /* "every vector has at most BS_CAP elements": the max_size() stand-in */
 #define BS_CAPACITY(c) __CPROVER_assume(c)
 
